@@ -9,6 +9,15 @@ CHECKS = {
  'C04': ('vt', 'bounded-exhaustive enumeration of timed call programs x batch-function scripts on the real batcher under a virtual-time event loop',
          'Every program of up to 4 (thorough 6) calls over repeating keys, gaps straddling batch_timeout, configs, per-key batch-function behaviours (value / Exception / StopIteration / omitted / raise / duplicate / unknown key), result orders and durations is executed on the real AsyncBackgroundBatcher (class and function form, one and two instances); each caller outcome is matched by identity against what the harness batch function yielded for its key; a pending caller at loop quiescence is a hang.',
          'CPython 3.12 asyncio; virtual clock; <= 2 deviating keys per script; subclass instances of StopIteration are outside the alphabet (CPython returns their .value).', '3/C04'),
+ 'C03': ('vt', 'bounded-exhaustive enumeration of timed submission programs x failure scripts on the real buffer under a virtual-time event loop (engine A); thread-interleaving exploration for foreign submitters (engine B)',
+         'Every program of up to 4 (thorough 5) submissions/waits over {plain, await_, map(list), map(iterator), amap} with producer delays and failure positions, gaps straddling the timeout, x failure scripts of the wrapped function x durations; oracle on the invocation log: nothing lost, nothing invented, loop-thread arguments in exactly one successful call.',
+         'virtual clock; <= 2 complex producers per program; engine A runs helper threads to completion at submit.', '3/C03'),
+ 'C07': ('vt', 'bounded-exhaustive enumeration of timed programs with wait() calls and shutdown instants on the real buffer under a virtual-time event loop',
+         'The C03 program space with the barrier oracle evaluated at the instant each wait() returns (several concurrent waiters, cancel=True/False); shutdown sweep: main() returns at every grid instant so that the stock asyncio _cancel_all_tasks meets the buffer idle / collecting / timer armed / function running and must terminate; direct cancellation of the background task.',
+         'virtual clock; a loop with nothing ready and no timer during shutdown = shutdown hangs.', '3/C07'),
+ 'C08': ('vt', 'bounded-exhaustive enumeration of arrival-time sequences on the real buffer under a virtual-time event loop',
+         'All arrival sequences of up to 5 (thorough 6) immediately-available submissions with gaps from {0,T/4,T-e,T,T+e,2.5T}, T in {1/4,1,3}, function durations {0,T/4,2T}, failure scripts with <= 2 failures; invocation log checked for overlap, emptiness, no call < T after a preceding submission, idle bursts flushed together exactly at last+T.',
+         'virtual clock; ties within e/2 of a timer not judged for timing.', '3/C08'),
  'C09': ('vt', 'bounded-exhaustive enumeration of call/cancel event sequences on the real batcher under a virtual-time event loop',
          'Every sequence of 2..3 (thorough 4) calls over repeating keys with 1..2 cancel events at every position, gaps x per-item durations covering queued / running-before-result / after-result, x configs, retention 0 and >0, result order, value/exception scripts, followed by fresh calls; every never-cancelled caller is matched by identity against the batch function yield for its key; pending callers at quiescence are hangs.',
          'virtual clock; the cancelled caller itself is unconstrained.', '3/C09'),
